@@ -31,7 +31,7 @@ RULE = (
     "cell measures (Fractions); overlaps >= 0; for every cell of either tessellation the sum of its overlaps equals "
     "its measure (1e-10 relative to the domain measure); each reported pairwise overlap equals the exact common "
     "length / area (interval intersection; exact convex clipping); 'averaged' rows and 'integrated' columns sum to "
-    "1 (1e-10), entries >= 0; scaling None = 0/1 pattern of pairs with exact overlap > tol; surface_tessellations: "
+    "1 (max(1e-9, 1e-10 * domain / cell measure)), entries >= 0; scaling None = 0/1 pattern of pairs with exact overlap > tol; surface_tessellations: "
     "every output cell maps to exactly one cell of each input set, and the areas mapped to an "
     "input cell sum to its area. Non-trivial = the two tessellations differ and each has >= 2 cells; distinct = "
     "hash of spec."
@@ -261,18 +261,47 @@ def _matrix_check(M, ex, scaling, meas_new, meas_old, dom, tol_none, tag, what):
         require(np.array_equal(A, exp), tag + "-pattern", lambda: f"{what} scaling=None: {A.tolist()} expected {exp.tolist()}")
         return
     require(np.all(A >= 0), tag + "-negative", lambda: f"{what} {scaling}: negative entry {A.min()}")
+    # Tolerance: the same absolute accuracy of an overlap as in the checks of line_tessellation / triangulations
+    # (RT * domain measure), divided by the measure of the cell that normalises the row / column, and never below
+    # 10 * RT.  (An earlier version used 10 * RT for every cell, which asked 100 x more of a cell that is 1e-3 of
+    # the domain than the pairwise overlap check does.)
     if scaling == "averaged":
+        cell = np.asarray(meas_new, dtype=float)
+        tol = np.maximum(RT * 10, RT * dom / cell)
         rs = A.sum(axis=1)
-        require(np.max(np.abs(rs - 1)) <= RT * 10, tag + "-averaged-rows",
-                lambda: f"{what}: rows of the averaged matrix sum to {rs.tolist()}")
-        exp = ex / np.asarray(meas_new, dtype=float)[:, None]
+        require(np.all(np.abs(rs - 1) <= tol), tag + "-averaged-rows",
+                lambda: f"{what}: rows of the averaged matrix sum to {rs.tolist()} (tolerances {tol.tolist()})")
+        exp = ex / cell[:, None]
+        tolm = tol[:, None]
     else:
+        cell = np.asarray(meas_old, dtype=float)
+        tol = np.maximum(RT * 10, RT * dom / cell)
         cs = A.sum(axis=0)
-        require(np.max(np.abs(cs - 1)) <= RT * 10, tag + "-integrated-columns",
-                lambda: f"{what}: columns of the integrated matrix sum to {cs.tolist()}")
-        exp = ex / np.asarray(meas_old, dtype=float)[None, :]
-    require(np.max(np.abs(A - exp)) <= RT * 10, tag + "-" + scaling + "-values",
+        require(np.all(np.abs(cs - 1) <= tol), tag + "-integrated-columns",
+                lambda: f"{what}: columns of the integrated matrix sum to {cs.tolist()} (tolerances {tol.tolist()})")
+        exp = ex / cell[None, :]
+        tolm = tol[None, :]
+    require(np.all(np.abs(A - exp) <= tolm), tag + "-" + scaling + "-values",
             lambda: f"{what} {scaling}: {A.tolist()} expected {exp.tolist()}")
+
+
+def _grid2d(s, Tk):
+    """TriangleGrid (counter-clockwise cells) of one triangulation of a match_2d spec, rotated / shifted as the spec says."""
+    import porepy as pp
+
+    pts, tri, _ = Tk
+    P = np.array(pts, dtype=float).T / 16.0
+    E = [eg.pt(p) for p in pts]
+    t = np.array([t_ if eg.orient2d(E[t_[0]], E[t_[1]], E[t_[2]]) > 0 else [t_[0], t_[2], t_[1]] for t_ in tri], dtype=int).T
+    g = pp.TriangleGrid(P, t)
+    if s["rot"] is not None:
+        ax = np.array(s["rot"][:3], dtype=float)
+        if not ax.any():
+            ax = np.array([1.0, 0, 0])
+        R = pp.map_geometry.rotation_matrix(s["rot"][3] * np.pi / 8 + 0.1, ax / np.linalg.norm(ax))
+        g.nodes = R @ g.nodes + np.array(s["shift"], dtype=float).reshape((3, 1))
+    g.compute_geometry()
+    return g
 
 
 # ----------------------------------------------------------------------------- known findings
@@ -410,7 +439,51 @@ def _known_third_set(s) -> bool:
     return bool(s.get("simplexes")) or _third_shares_interior_edge(T, [eg.pt(p) for p in s["hull"]])
 
 
+def _known_collection_overlap(s) -> bool:
+    """match_2d where, for some pair of cells, shapely's fixed-precision intersection (grid 1e-12 * extent, as
+    intersections.triangulations computes it since 1b93156c0) is not a Polygon although it has positive area - a
+    GeometryCollection of the common polygon and a collapsed sliver (LineString), or a MultiPolygon.  The class is
+    decided by running the same overlay on the coordinates match_2d hands to shapely (centred at the node mean of
+    the new grid and projected with the common normal), because whether snapping leaves a sliver depends on the
+    rounded coordinates, not on the exact geometry (about 2 in 10 000 match_2d cases)."""
+    if s["fn"] != "match_2d":
+        return False
+    import porepy as pp
+    import shapely
+    import shapely.geometry as sg
+
+    sets_in = [s["in1"], s["in2"]]
+    T = [_triangulate(s["hull"], inner) for inner in sets_in]
+    if any(t is None for t in T):
+        return False
+    gn, go = _grid2d(s, T[0]), _grid2d(s, T[1])
+    if s["swap"]:
+        gn, go = go, gn
+    cc = np.mean(gn.nodes, axis=1).reshape((3, 1))
+    n = pp.map_geometry.compute_normal(gn.nodes - cc)
+
+    def proj(g):
+        p = g.nodes - cc
+        return pp.map_geometry.project_plane_matrix(p, n).dot(p)[:2]
+
+    def cells(g):
+        cn = g.cell_nodes().tocsc()
+        return cn.indices.reshape((3, g.num_cells), order="F")
+
+    p1, p2, t1, t2 = proj(gn), proj(go), cells(gn), cells(go)
+    grid_size = 1e-12 * max(np.ptp(p1, axis=1).max(), np.ptp(p2, axis=1).max())
+    P2 = [sg.Polygon(p2[:, t2[:, j]].T) for j in range(t2.shape[1])]
+    for i in range(t1.shape[1]):
+        P1 = sg.Polygon(p1[:, t1[:, i]].T)
+        for Q in P2:
+            isect = shapely.intersection(P1, Q, grid_size=grid_size)
+            if not isinstance(isect, sg.Polygon) and isect.area > 0:
+                return True
+    return False
+
+
 KNOWN = {
+    "C33-triangulations-geometrycollection-overlap": _known_collection_overlap,
     "C33-surface-tessellations-empty-polygon": _known_empty_polygon,
     "C33-surface-tessellations-third-set-shared-edge": _known_third_set,
 }
@@ -567,20 +640,7 @@ def check(s):
 
         else:  # match_2d
             def grid(k):
-                pts, tri, _ = T[k]
-                P = np.array(pts, dtype=float).T / 16.0
-                E = [eg.pt(p) for p in pts]
-                t = np.array([t_ if eg.orient2d(E[t_[0]], E[t_[1]], E[t_[2]]) > 0 else [t_[0], t_[2], t_[1]] for t_ in tri],
-                             dtype=int).T
-                g = pp.TriangleGrid(P, t)
-                if s["rot"] is not None:
-                    ax = np.array(s["rot"][:3], dtype=float)
-                    if not ax.any():
-                        ax = np.array([1.0, 0, 0])
-                    R = pp.map_geometry.rotation_matrix(s["rot"][3] * np.pi / 8 + 0.1, ax / np.linalg.norm(ax))
-                    g.nodes = R @ g.nodes + np.array(s["shift"], dtype=float).reshape((3, 1))
-                g.compute_geometry()
-                return g
+                return _grid2d(s, T[k])
 
             if s["rot"] is not None:
                 labels.append("match2d-rotated")
